@@ -812,7 +812,7 @@ func (m *aMonitor) afterOp(op aOp) {
 				m.info.staleWakeSkips++
 			} else if (free && !head.wwu) || (!free && !k.termsChanged && m.admissible(k, head.count)) {
 				tags := "C04"
-				if k.lastEnd == "expiry" {
+				if k.lastEnd == "expiry" && !k.staleWake { // a head that became admissible because another waiter left is C04's matter only
 					tags = "C04,C06" // C06: when a hold expires queued requests are served exactly as after an unlock
 				}
 				m.viol(tags, "key %s: queued request #%d (Count %d) is at the head of the queue and admissible (%d holds outstanding) but was not granted", id, head.req.Idx, head.count, k.locked())
